@@ -69,6 +69,42 @@ var vc04Routes = []vc04Route{
 	{19, "GET", "/internal/w/*"},
 	{20, "DELETE", "/internal/vdr/v1/did/:did"},
 	{21, "POST", "/internal/w/*"},
+	{22, "OPTIONS", "/internal/x"},
+	{23, "OPTIONS", "/internal/w/*"},
+	{24, "TRACE", "/internal/x"},
+	{25, "HEAD", "/internal/x"},
+	{26, "PROPFIND", "/internal/x"},
+	{27, "PUT", "/internal/x/:id"},
+	{28, "PATCH", "/internal/x/:id"},
+	{29, "OPTIONS", "/internal/vdr/v1/did/:did"},
+	{30, "OPTIONS", "/public"},
+}
+
+// request headers that proxies, browsers and frameworks give a meaning to: none of them may influence the guard
+var vc04ExtraHeaders = []string{
+	"Access-Control-Request-Method: POST", "Access-Control-Request-Method: DELETE", "Access-Control-Request-Headers: authorization",
+	"Origin: https://evil.example", "Origin: null", "X-Forwarded-For: 127.0.0.1", "X-Forwarded-Host: localhost", "X-Forwarded-Proto: https",
+	"X-Real-Ip: 127.0.0.1", "Forwarded: for=127.0.0.1;host=localhost", "Upgrade: h2c", "Upgrade: websocket", "X-Http-Method-Override: GET",
+	"X-Original-Url: /public", "X-Rewrite-Url: /public", "Cookie: session=admin", "Proxy-Authorization: Bearer x", "Expect: 100-continue",
+	"Referer: http://localhost/internal/x", "Sec-Fetch-Mode: cors", "Content-Type: application/json",
+}
+
+func vc04PickHeaders(r *rand.Rand) []string {
+	if r.Intn(2) == 0 {
+		return nil
+	}
+	n := 1 + r.Intn(3)
+	var res []string
+	seen := map[string]bool{}
+	for i := 0; i < n; i++ {
+		h := vc04ExtraHeaders[r.Intn(len(vc04ExtraHeaders))]
+		k := h[:strings.Index(h, ":")]
+		if !seen[k] && k != "Expect" {
+			seen[k] = true
+			res = append(res, h)
+		}
+	}
+	return res
 }
 
 type vc04Obs struct {
@@ -258,7 +294,7 @@ func vc04StartEngine(t *testing.T, name string, sameAddr, auth bool, keysFile, a
 }
 
 // one raw request; returns the status code (0 = no parsable status line)
-func vc04Raw(addr, method string, target []byte, authHdr string) int {
+func vc04Raw(addr, method string, target []byte, authHdr string, extra []string) int {
 	conn, err := net.DialTimeout("tcp", addr, 2*time.Second)
 	if err != nil {
 		return -1
@@ -271,6 +307,9 @@ func vc04Raw(addr, method string, target []byte, authHdr string) int {
 	sb.WriteString(" HTTP/1.1\r\nHost: verif.test\r\nConnection: close\r\n")
 	if authHdr != "" {
 		sb.WriteString("Authorization: " + authHdr + "\r\n")
+	}
+	for _, h := range extra {
+		sb.WriteString(h + "\r\n")
 	}
 	sb.WriteString("Content-Length: 0\r\n\r\n")
 	if _, err := io.WriteString(conn, sb.String()); err != nil {
@@ -530,6 +569,7 @@ type vc04Op struct {
 	Show   string          `json:"show,omitempty"`
 	AuthOK map[string]bool `json:"authok,omitempty"`
 	Cred   string          `json:"cred,omitempty"`
+	HX     []string        `json:"hx,omitempty"` // extra request headers
 	Hdr    string          `json:"hdr,omitempty"`
 	Tok    *vc04Tok        `json:"tok,omitempty"`
 	A      string          `json:"a,omitempty"`
@@ -626,7 +666,7 @@ func TestVerifC04(t *testing.T) {
 			vc04Seen.mu.Lock()
 			vc04Seen.ran, vc04Seen.user = -1, "-"
 			vc04Seen.mu.Unlock()
-			code := vc04Raw(addr, op.M, target, op.Hdr)
+			code := vc04Raw(addr, op.M, target, op.Hdr, op.HX)
 			vc04Seen.mu.Lock()
 			defer vc04Seen.mu.Unlock()
 			ran := "-"
@@ -699,7 +739,7 @@ func TestVerifC04(t *testing.T) {
 		}
 	}
 
-	methods := []string{"GET", "GET", "GET", "GET", "GET", "POST", "CONNECT", "OPTIONS", "DELETE", "DELETE", "HEAD"}
+	methods := []string{"GET", "GET", "GET", "GET", "GET", "POST", "CONNECT", "OPTIONS", "OPTIONS", "OPTIONS", "DELETE", "DELETE", "HEAD", "TRACE", "PROPFIND", "PUT", "PATCH", "BREW"}
 	engNames := []string{"A", "A", "A", "B", "B", "C", "D", "D", "D"}
 	for i := 0; i < nReq; i++ {
 		m := methods[r.Intn(len(methods))]
@@ -714,12 +754,25 @@ func TestVerifC04(t *testing.T) {
 			c = creds[r.Intn(len(creds))]
 		}
 		tk := c.tok
+		hx := vc04PickHeaders(r)
+		if m == "OPTIONS" && r.Intn(2) == 0 { // a CORS preflight shape
+			hx = append([]string{"Origin: https://evil.example", "Access-Control-Request-Method: " + []string{"POST", "DELETE", "GET"}[r.Intn(3)]}, hx...)
+			seen := map[string]bool{}
+			var d []string
+			for _, h := range hx {
+				if k := h[:strings.Index(h, ":")]; !seen[k] {
+					seen[k] = true
+					d = append(d, h)
+				}
+			}
+			hx = d
+		}
 		for _, lis := range []string{"int", "pub"} {
 			if en == "B" && lis == "pub" {
 				continue
 			}
 			op := vc04Op{Op: "req", Eng: en, Lis: lis, M: m, T: hex.EncodeToString(target), Show: strconv.QuoteToASCII(string(target)),
-				AuthOK: vc04AuthorityVerdicts(m, target), Cred: c.kind, Hdr: c.hdr, Tok: &tk}
+				AuthOK: vc04AuthorityVerdicts(m, target), Cred: c.kind, Hdr: c.hdr, Tok: &tk, HX: hx}
 			emit(op, run(op))
 		}
 	}
